@@ -8,11 +8,17 @@ use crate::prng::Rng;
 
 #[cfg(feature = "sodium")]
 pub mod c07;
+pub mod c08;
+#[cfg(feature = "sodium")]
+pub mod c12;
 
 pub fn dispatch(name: &str, cx: &mut Ctx) -> bool {
     match name {
         #[cfg(feature = "sodium")]
         "c07" => c07::run(cx),
+        "c08" => c08::run(cx),
+        #[cfg(feature = "sodium")]
+        "c12" => c12::run(cx),
         _ => return false,
     }
     true
